@@ -205,8 +205,11 @@ def locate(case, real, alts, layout):
     """Names of the deviations of `real` from the closest conforming frame: list of group keys (scope, detail)."""
     pv, kind = case["pv"], case["kind"]
     hl = 9 if pv >= 3 else 8
-    best = max(sorted(alts), key=lambda a: _common_prefix(bytes(a), real))
-    best = bytes(best)
+    def distance(a):                 # closest conforming frame: same length first, then fewest differing bits
+        a = bytes(a)
+        return (abs(len(a) - len(real)), -_common_prefix(a, real) if len(a) != len(real) else 0,
+                sum(bin(x ^ y).count("1") for x, y in zip(a, real)))
+    best = bytes(min(sorted(alts), key=distance))
     rb, sb = real[hl:], best[hl:]
     if rb == sb:
         names = ["version", "flags"] + (["stream", "stream"] if pv >= 3 else ["stream"]) + ["opcode"] + ["length"] * 4
@@ -245,8 +248,8 @@ def judge_request(state):
     if expect == "reject":
         if got[0] == "raised":
             return None, got
-        must = sorted(n for n, m in state["reasons"] if m)
-        return [("not-rejected", case["kind"], n) for n in must], got
+        must = sorted(n for n, m in state["reasons"] if m)      # frame-level options are not specific to a message kind
+        return [("not-rejected", "any" if n == "custom_payload" else case["kind"], n) for n in must], got
     return None, got                             # "open": recorded by the caller, not judged
 
 
